@@ -151,10 +151,11 @@ def Clause.text : Clause → String
   | .c03BeforeSync j i => s!"C03: handler of r{j} started before the synchronous handler of earlier r{i} finished"
   | .c03LaterFirst i j => s!"C03: handler of later r{i} was started before earlier r{j}"
   | .c04ReadCause r => s!"C04: r{r} cancelled with a read error although the reader is alive"
-  | .c05WriteCause r => s!"C05: handler context of r{r} cancelled as 'server closing' although no transport write ever failed (graceful Close must let running handlers finish)"
+  | .c05WriteCause r => s!"C04+C05: handler context of r{r} cancelled as 'server closing' although no transport write ever failed (no cancellation named it: an unrelated in-flight request was cancelled; a graceful Close must let running handlers finish)"
   | .c04Unrelated r => s!"C04: r{r} cancelled although no cancellation for its id was processed and it has not finished"
   | .c04NotCancelled id r => s!"C04: Cancel({id}) did not cancel the handler context of r{r}"
   | .c04CtxStuck n => s!"C04: cancelling the context of c{n} did not make the call return"
+  | .c04CancelUnasked id => s!"C04: Cancel was invoked for id {id} although no notifications/cancelled named {id} (the canceller mis-decoded the request id): a request the peer did not name may be cancelled, and the one it named is not"
   | .c05TcTwice => "C05: transport closed more than once"
   | .c05OdTwice => "C05: onDone ran more than once"
   | .c05ClosedBusy => "C05: transport closed while requests were still in flight"
